@@ -1,6 +1,8 @@
 """C06 — the fully-resolved form is explicit, self-contained and a fixed point."""
 from __future__ import annotations
 
+import copy
+
 import decimal
 from fractions import Fraction
 
@@ -121,6 +123,24 @@ def scribble(v, rng):
         v.append("extra")
 
 
+def fixed_docs():
+    """valid documents that random generation reaches rarely: the shared corpus of delicate documents, several pulses at ONE
+    time (their listed order is part of the model and must survive re-resolution), integers that no double holds exactly"""
+    from props.common import delicate_docs
+    docs = [copy.deepcopy(d) for d, _ in delicate_docs()]
+    four = [{"name": x, "epochs": [{"start_size": 100, "end_time": 0}]} for x in "ABCDE"]
+    for order in ([("A", "B"), ("C", "D"), ("A", "C"), ("B", "D")], [("B", "D"), ("A", "C"), ("C", "D"), ("A", "B"), ("E", "A")]):
+        docs.append({"time_units": "generations", "demes": copy.deepcopy(four),
+                     "pulses": [{"sources": ["E"], "dest": "B", "time": 30, "proportions": [0.125]}]
+                     + [{"sources": [a], "dest": b, "time": 20, "proportions": [0.0625 * (i + 1)]} for i, (a, b) in enumerate(order)]
+                     + [{"sources": ["A"], "dest": "E", "time": 10, "proportions": [0.5]}]})
+    big = 10 ** 16 + 1
+    docs.append({"time_units": "years", "generation_time": 2 ** 53 + 1,
+                 "demes": [{"name": "A", "epochs": [{"start_size": big, "end_time": 2 ** 53 + 1}, {"start_size": big + 2, "end_size": big + 2, "end_time": 0}]},
+                           {"name": "B", "ancestors": ["A"], "start_time": 2 ** 53 + 3, "epochs": [{"start_size": 3 * big}]}]})
+    return docs
+
+
 def run(ctx):
     n = 600 if ctx.tier == "quick" else 8000
     done = 0
@@ -128,9 +148,10 @@ def run(ctx):
         models = gen_models(ctx, min(200, n - done))
         done += len(models)
         graphs, docs = [], []
-        for m in models:
-            d = G.spell(m, ctx.rng, level=ctx.rng.choice([0, 0.5, 1]))
-            ex = ctx.rng.random() < 0.4
+        fixed = fixed_docs() if done == len(models) else []        # first batch only
+        for m in fixed + models:
+            d = m if isinstance(m, dict) else G.spell(m, ctx.rng, level=ctx.rng.choice([0, 0.5, 1]))
+            ex = (not isinstance(m, dict)) and ctx.rng.random() < 0.4
             try:
                 dd = exotic(d, ctx.rng) if ex else d
                 if ex and ctx.rng.random() < 0.4:
